@@ -7,8 +7,8 @@ import os
 import shutil
 from datetime import date, time
 
-from ..lib import NMEA2000Decoder, NMEA2000Encoder, NMEA2000Message
-from .. import refdb, gen, wire, hist, runner
+from ..lib import NMEA2000Decoder, NMEA2000Encoder, NMEA2000Message, PhysicalQuantities
+from .. import refdb, gen, wire, hist, runner, project
 from .c01 import fixed_cases, variable_cases
 
 ID = "C15"
@@ -51,11 +51,17 @@ def same(a, b):
 
 
 def check_message(m, enc, acc, w, dbx=None, d=None):
+    before = project.msg_proj(m)
     try:
         text = m.to_json()
     except Exception as e:  # noqa: BLE001
         acc.violation("to-json-raised", f"{w['definition']}: to_json raised {type(e).__name__}: {e}", w)
         return
+    acc.count("to_json_purity_checked")
+    if project.msg_proj(m) != before:
+        a, b = before, project.msg_proj(m)
+        what = next((n for n, x, y in zip(("PGN", "id", "description", "ttl", "source", "destination", "priority", "fields", "identity", "hash"), a, b) if x != y), "?")
+        acc.violation("to-json-changes-the-message", f"{w['definition']}: the message differs after to_json() in: {what}", w)
     try:
         parsed = json.loads(text)
     except Exception as e:  # noqa: BLE001
@@ -150,6 +156,11 @@ def run_dump(spec, acc):
     try:
         for c in range(40 if quick else 400):
             pool = hist.Pool(dbx, rng, n_single=6, n_fast=4)
+            if c % 3 == 1:
+                # make sure fields with a convertible quantity travel
+                conv = [d for d in dbx.defs if d.supported and d.fixed_layout and d.type == "Single" and (d.length or 9) <= 8 and not d.fallback
+                        and not any(f.offset is not None for f in d.fields) and any(f.pq in ("TEMPERATURE", "PRESSURE", "ANGLE", "SPEED") for f in d.fields)]
+                pool.singles += [d for d in rng.sample(conv, min(3, len(conv))) if d not in pool.singles]
             defs = pool.singles + pool.fasts
             style = ["empty", "numbers", "ids", "mixed", "ids-other-case", "numbers"][c % 6]
             chosen = rng.sample(defs, min(len(defs), rng.randint(1, 3)))
@@ -171,18 +182,41 @@ def run_dump(spec, acc):
             path = os.path.join(base, f"sub{c % 3}", f"dump{c}.jsonl") if c % 2 else os.path.join(base, f"dump{c}.jsonl")
             claims = {s: [hist.claim_name(rng.randrange(1 << 20), 1851)] for s in (1, 2)}
             events = hist.build_history(pool, rng, [1, 2], 60 if quick else 200, claims)
-            dec = NMEA2000Decoder(dump_to_file=path, dump_pgns=entries)
+            # other settings of the same decoder: the dump line is the JSON of the message *as returned*
+            extra = {}
+            if c % 3 == 1:
+                extra["preferred_units"] = {PhysicalQuantities.TEMPERATURE: rng.choice(["C", "f"]), PhysicalQuantities.PRESSURE: rng.choice(["bar", "PSI"]),
+                                            PhysicalQuantities.ANGLE: "deg", PhysicalQuantities.SPEED: "kts"}
+            if c % 4 >= 2:
+                extra["build_network_map"] = True
+            if c % 5 == 4:
+                extra["exclude_pgns"] = [rng.choice(defs).pgn]
+            acc.cover("dump_co_settings", "+".join(sorted(extra)) or "none")
+            dec = NMEA2000Decoder(dump_to_file=path, dump_pgns=entries, **extra)
             expected = []
+            returned = []
             kept = skipped = 0
             for ev in events:
                 kind, r = hist.safe_feed(dec, ev)
                 if kind == "ok" and r is not None:
+                    returned.append((r, project.msg_proj(r)))
                     if not entries or r.PGN in nums or r.id.lower() in ids:
                         expected.append(r.to_json())
                         kept += 1
                     else:
                         skipped += 1
             dec.close()
+            # the returned objects are the caller's: dumping them must not have changed them
+            for r, proj in returned:
+                if project.msg_proj(r) != proj:
+                    acc.violation("returned-message-changed-after-return", f"filter {entries} settings {sorted(extra)}: a returned {r.id} message changed after it was returned", {"filter": repr(entries)})
+                    break
+            if extra.get("build_network_map") and any(proj[9] is None for _, proj in returned):
+                acc.violation("dumped-message-returned-without-hash", f"filter {entries}: with network mapping and dumping on, a returned message has no hash", {"filter": repr(entries)})
+            if "preferred_units" in extra:
+                acc.count("dump_runs_with_unit_preferences")
+                if any(f.unit_of_measurement in ("C", "F", "Bar", "PSI", "deg", "kts", "c", "f", "bar", "psi") for r, _ in returned for f in r.fields):
+                    acc.count("dump_runs_with_converted_fields")
             acc.count("dump_runs")
             acc.cover("dump_filter_styles", style)
             try:
